@@ -384,7 +384,7 @@ def length_rules(ctx, F):
                 nacc += 1
                 ctx.ob(R, "stream-literal|%s" % fn, fn in allowed_lit, "%s builds a Stream by literal" % fn, b.where(s["ln"]),
                        what="%s builds a Stream by struct literal outside the reviewed constructors: Length is not set from the content" % fn)
-    ctx.floor(R, "writers/literals of Stream.content", nacc, 6)
+    ctx.floor(R, "writers/literals of Stream.content", nacc, 4)
     # 2. each setter / constructor sets Length from the content it installs, on every path
     for fn, src in (("Stream::new", "content"), ("Stream::set_content", "content"), ("Stream::set_plain_content", "content")):
         b = F.fn(fn)
@@ -392,6 +392,13 @@ def length_rules(ctx, F):
                 or (c.local and c.cname.endswith("Dictionary::set") and "Length" in b.oname(c.args[1], 4))]
         ok = False
         how = "no Dictionary::set(\"Length\", ..)"
+        # a setter may hand its content on to another reviewed setter (set_plain_content -> set_content): Length is then set there
+        for c in b.calls:
+            if c.local and re.search(r"Stream::(set_content|new)$", c.cname) and c.cname != fn and len(c.args) >= 2:
+                o_ = lib.origin_local(F, b, c.args[-1])
+                rets_ = [x for x in b.reachable() if b.term(x)["k"] == "return"]
+                if o_ is not None and o_[0] is b and 1 <= o_[1] <= b.argc and all(b.dominates(c.bb, r) for r in rets_):
+                    ok, how = True, "delegates to %s with its own content argument" % c.cname.rsplit("::", 1)[-1]
         for c in sets:
             t = b.oname(c.args[2], 5)
             how = "Length = %s" % t
